@@ -51,6 +51,15 @@ def _prepare():
         vlib.coq_eval_cases = small_shards
 
 
+def _linkloss(c, n, replay=None, name="linkloss", env=None):
+    args = ["linkloss", "-replay", replay] if replay else ["linkloss", "-n", str(n)]
+    out = c.harness("proto", args, timeout=900, env=env)
+    if out:
+        # links and order bytes chosen by send() after the loss against the model of the pool (pool_drop), in Coq;
+        # exactly-once delivery is the Go monitor of the family
+        c.cases(name, out, IMPORTS, "ocase", corr=["corr_links"], spec=[], premise=[])
+
+
 def run(c):
     _prepare()
     c.proofs("theories/Properties/C12.v", clean=(c.tier == "thorough"))
@@ -68,6 +77,11 @@ def run(c):
         c.cases("frames", out, IMPORTS, "pcase", corr=CORR, spec=SPEC, premise=["premise_c12"])
     if not c.replay:
         _redial(c, nrd)
+    # a pooled link is lost while the connection stays up: everything sent before and after is delivered exactly once
+    if c.replay and _replay_engine(c.replay).startswith("linkloss"):
+        _linkloss(c, 1, replay=c.replay)
+    elif not c.replay:
+        _linkloss(c, 60 if c.tier == "quick" else 1500)
     if c.broken and not c.violations and not c.replay:
         # something no longer checks: spend the extra search budget looking for a failing input
         out = c.harness("proto", ["c12", "-n", str(n * 10)], timeout=1500, env={"VERIF_SEED": str(c.seed + 7919)})
@@ -78,6 +92,10 @@ def run(c):
         if not c.violations:
             keep = list(c.broken)
             _redial(c, nrd * 3, name="redial-search", corr=[], env={"VERIF_SEED": str(c.seed + 7919)})
+            c.broken = keep + [b for b in c.broken if b not in keep]
+        if not c.violations:
+            keep = list(c.broken)
+            _linkloss(c, 600, name="linkloss-search", env={"VERIF_SEED": str(c.seed + 7919)})
             c.broken = keep + [b for b in c.broken if b not in keep]
     c.cov["rule"] = ("distinct = different Coq case term (requests, wire bytes, chunking, calls); non-trivial = at least one request "
                      "accepted and every send returned nil or ErrTooLarge")
